@@ -180,7 +180,12 @@ def make(S, optsd, ml, oracle, pre_ok, suf_ok, thresh=None, twin=False, exit_ok=
                 return r or _range_cex(D, rng, d, e, S, optsd, ml, T0, twin)
             D.EXTRA['validated'] += 1
             if oracle is not None:
-                return oracle(S, d0, e0, doc, nflat, ndiags)
+                r = oracle(S, d0, e0, doc, nflat, ndiags)
+                if r is not None and r is not True:
+                    wit = {'d': d0, 'e': e0}
+                    if T0 is not None and sym_thresh:
+                        wit['T'] = T0
+                    return D.Fail(r, wit)
             return True
 
     if sym_thresh:
